@@ -2,7 +2,7 @@
 # run every registered quick check on /repo's current tree; print one line per property
 cd /verif
 rc_all=0
-for p in C01 C02 C03 C04 C05 C06 C07 C08 C09 C10 C11 C12 C13 C14 C15 C16 C17 C18 C19; do
+for p in C01 C02 C03 C04 C05 C06 C07 C08 C09 C10 C11 C12 C13 C14 C15 C16 C17 C18 C19 C20; do
   out=$(python3 check $p --tier ${1:-quick} 2>&1); rc=$?
   echo "$p rc=$rc $(echo "$out" | tail -1 | cut -c1-160)"
   [ $rc -ne 0 ] && rc_all=1 && echo "$out" | grep -E "VIOLATION|ANALYSIS-ERROR|^  C" | cut -c1-300
